@@ -96,6 +96,29 @@ def check(ctx):
     ctx.guarded(PL, Agg("may::cqueue::PollError", "Finished", transitive=False), variant_of_call(MQ_MPSC + "pop", "None"), "poll/finished-only-if-queue-empty", "Finished only after pop returned None",
                 pred_label="edge `ev_queue.pop()` is None")
     shared.cqueue_finished_rules(ctx)
+    # (seed C16-3) check_panic: the "only the first panic is re-raised" latch is touched only for a REAL panic. A selector that was
+    # removed ends with a Cancel panic; if that sets the latch, the panic of a selector that really failed is swallowed afterwards
+    CP = CQ + "::check_panic"
+    f = ctx.fn("R-EXIT", CP, "check-panic/latch-only-for-real-panic")
+    if f is not None:
+        latch = ctx.an.sites(f, Call(A("(swap|compare_exchange|fetch_or|store)"), on=CQ + ".is_panicking", transitive=False), "must")
+        is_cancel = lambda a: a.kind == "call" and a.truth is True and re.search(r"PartialEq.*::eq$", a.name or "") is not None
+        es = ctx.edges(f, is_cancel)
+        filt = ctx.an.sites(f, Call(r".*::downcast_ref", transitive=False), "must")
+        if not latch or not es or not filt:
+            ctx.missing("R-EXIT", CP, "check-panic/latch-only-for-real-panic", "latch sites=%d `== Cancel` edges=%d downcast_ref=%d" % (len(latch), len(es), len(filt)))
+        else:
+            r1 = ctx.an.reach(f, [Point(tb, 0) for _, tb, _ in es])
+            r2 = ctx.an.reach(f, [Point(0, 0)], blocked=filt)
+            bad = [x for x in latch if x in r1 or x in r2]
+            ctx.ob("R-EXIT", CP, "check-panic/latch-only-for-real-panic", not bad,
+                   "is_panicking is latched only behind the Cancel filter (downcast_ref + `== Error::Cancel` false)" if not bad else
+                   "check_panic latches is_panicking for a panic that was not (yet) told apart from Cancel: after a removed selector ended, the real panic of another "
+                   "selector is no longer propagated to the poller", f.where(sorted(bad or latch)[0]))
+        ctx.guarded(CP, Call(r"std::panic::resume_unwind", transitive=False), call_false(A("swap")), "check-panic/resume-only-first", "a selector's panic is re-raised only when the latch was clear",
+                    pred_label="edge `is_panicking.swap(true)` is false")
+        ctx.must_follow(CP, None, Call(r"std::panic::resume_unwind", transitive=False), "check-panic/first-real-panic-resumed", "the first real panic is always re-raised in the poller",
+                        edge=call_false(A("swap")), edge_label="edge `is_panicking.swap(true)` is false", rule="R-EXIT")
     # continue_bottom: Option::take
     CB = EV + "::continue_bottom"
     ctx.order(CB, Call(r"(std|core)::option::Option::take", on=EV + ".co", transitive=False), Call(r"may::coroutine_impl::run_coroutine", transitive=False), "bottom/take-then-run",
